@@ -256,12 +256,20 @@ class ExprParser(RecursiveDescent):
         self.exit("expression")
         return atom_lhs
 
+    def check_octal(self):
+        """C++ reads a leading 0 as an octal literal: 08 is not a number."""
+        value = self.token.value
+        if (self.token.typ == "INTEGER" and len(value) > 1
+                and value[0] == "0" and value.strip("01234567")):
+            self.error_msg("Invalid digit in octal constant '{}'", value)
+
     def primary(self):
         self.enter("primary")
         if self.peek("ID"):
             node = self.identifier()
         elif self.token.typ in ["REAL", "INTEGER"]:
             self.enter("constant")
+            self.check_octal()
             node = Constant(self.token.value)
             self.next()
         elif self.have("LPAREN"):
@@ -710,6 +718,7 @@ class Parser(ExprParser):
         TODO: This should support expressions
         """
         self.enter("initializer")
+        self.check_octal()
         value = self.token.value
         if self.have("REAL"):
             value = float(value)
